@@ -175,6 +175,7 @@ T_EvictionOnlyPastThreshold == [][Ev.e \in {"Reset", "GenesisHousekeep"} \/ A_Ev
 T_VoluntaryExitAtPeriodEnd == [][Ev.e \in {"Reset", "GenesisHousekeep"} \/ A_VoluntaryExitAtPeriodEnd]_vars
 T_ActivationsWithinMax == [][Ev.e \in {"Reset", "GenesisHousekeep"} \/ A_ActivationsWithinMax]_vars
 T_ActivationIsFifo == [][Ev.e \in {"Reset", "GenesisHousekeep"} \/ A_ActivationIsFifo]_vars
+T_LeaderGroupNeverEmptied == [][Ev.e \in {"Reset", "GenesisHousekeep"} \/ A_LeaderGroupNeverEmptied]_vars     \* violated by F4; not in any cfg
 T_LeaderGroupEmptiedOnlyByF4 == [][Ev.e \in {"Reset", "GenesisHousekeep"} \/ A_LeaderGroupEmptiedOnlyByF4]_vars
 
 \* F4 is watched, not enforced: the observation is printed and validation continues
